@@ -208,14 +208,22 @@ fn pw_bits<T: Num>(p: &Piecewise<T>) -> Vec<u64> {
     o
 }
 
-fn report<V>(v: &V, bits: &dyn Fn(&V) -> Vec<u64>) -> Vec<u64>
+fn report<V>(v: &V, bits: &dyn Fn(&V) -> Vec<u64>, prefail: bool) -> Vec<u64>
 where
     V: Serialize + serde::de::DeserializeOwned + borsh::BorshSerialize + borsh::BorshDeserialize,
 {
+    if prefail {
+        // a serialisation attempt that fails half way (writer too small); whatever it leaves behind must not
+        // influence this or any later serialisation
+        let mut tiny = [0u8; 3];
+        let _ = borsh::BorshSerialize::serialize(v, &mut &mut tiny[..]);
+    }
     let mut rec = Rec { out: Vec::new() };
     let tokens = match Serialize::serialize(v, &mut rec) {
         Ok(()) => rec.out,
-        Err(e) => panic!("HARNESS: recording serializer: {}", e),
+        // a call outside the expected data-model vocabulary: report a marker token (the model will disagree) and
+        // still run the round trips, so that a value that does not survive them is reported as the failing input
+        Err(_) => vec![0xBAD0_BAD0_BAD0u64],
     };
     let orig = bits(v);
     let finite = orig.iter().skip(0).all(|&b| f64::from_bits(b).is_finite() || b < (1u64 << 32));
@@ -261,7 +269,7 @@ where
     T: Num + Serialize + serde::de::DeserializeOwned + borsh::BorshSerialize + borsh::BorshDeserialize,
 {
     let v = T::of(&u64s(&c["v"]));
-    report(&v, &|x: &T| x.bits())
+    report(&v, &|x: &T| x.bits(), c.get("prefail").and_then(|b| b.as_bool()).unwrap_or(false))
 }
 fn wire_pw<T>(c: &Value) -> Vec<u64>
 where
@@ -269,7 +277,7 @@ where
 {
     let v = Piecewise { segments: parse_segs::<T>(&c["segs"]) };
     let _ = PwBits(&v);
-    report(&v, &|x: &Piecewise<T>| pw_bits(x))
+    report(&v, &|x: &Piecewise<T>| pw_bits(x), c.get("prefail").and_then(|b| b.as_bool()).unwrap_or(false))
 }
 
 macro_rules! by_type {
